@@ -99,8 +99,11 @@ WellSplit(r) == \A d \in SDecls(r) : SRefs(d) \subseteq SVisible(r, d.m)
 \* shapes of known findings
 Leaky(r) == \E m \in 1..r.nmods : \E d \in SDecls(r) :
                 d.pub /\ d.cont /\ d.m # m /\ d.m \in SImports(r, m) /\ ~(SRefs(d) \subseteq SVisible(r, m))
-SharedStructure(r) == r.nmods >= 3 /\ \E d \in SDecls(r) :
-                d.pub /\ d.k = "struct" /\ Cardinality({ m \in 1..r.nmods : m # d.m /\ d.m \in SImports(r, m) }) >= 2
+\* a public structure with a member of structure / word type that some other module imports
+ImportedNestedStructure(r) == \E d \in SDecls(r) :
+                /\ d.pub /\ d.k = "struct"
+                /\ \E e \in SDecls(r) : e.k = "struct" /\ e.n \in SRefs(d)
+                /\ \E m \in 1..r.nmods : m # d.m /\ d.m \in SImports(r, m)
 RunProblem(r, x) == IF r.runs[x].died # "" THEN "died"
                     ELSE IF ~r.runs[x].ok THEN "rejected" ELSE "differs"
 TSplit == /\ Ev("split") /\ tphase = "idle"
@@ -112,7 +115,7 @@ TSplit == /\ Ev("split") /\ tphase = "idle"
                   PrintT(<<"BAD", ToJson([ev |-> "split", prog |-> r.prog, seed |-> r.seed, closed |-> r.closed, nmods |-> r.nmods,
                                           problems |-> SetToSeq(problems),
                                           tags |-> SetToSeq((IF Leaky(r) THEN {"pub-definition-needs-invisible"} ELSE {})
-                                                            \cup (IF SharedStructure(r) THEN {"structure-shared-by-three-modules"} ELSE {})),
+                                                            \cup (IF ImportedNestedStructure(r) THEN {"imported-nested-structure"} ELSE {})),
                                           badruns |-> [x \in 1..Len(r.runs) |-> IF x \in bad THEN r.runs[x] ELSE [order |-> r.runs[x].order]]])>>)
           /\ l' = l + 1 /\ UNCHANGED <<tphase, taken, mods, cur, todo, phase>>
 \* histories: the result for a module does not depend on unrelated modules compiled before it
